@@ -63,12 +63,14 @@ def xyz():
 
 # ------------------------------------------------------------------ scenario
 
-SPEC = {"vars": [["out", []], ["E", []]], "sizes": {}, "ret": "tuple",
+SPEC = {"vars": [["out", []], ["z_", []]], "sizes": {}, "ret": "tuple",
         "log": None}
 
 
 def sampler_file(sc):
     # (a data name without any dot is as good as one with an extension)
+    if sc.get("engine") == "csv":
+        return "samples.csv"
     return "samples" if sc.get("bare_name") else "samples.pkl"
 
 
@@ -77,7 +79,7 @@ def make_farmer(x, sc, D):
     if kind == "raw":
         return None, crops.record(sc["kind"], None)
     fn = labelled.make_fn(SPEC)
-    r = x.Runner(fn, ("out", "E"))
+    r = x.Runner(fn, ("out", "z_"))
     if kind == "runner":
         return r, fn
     if kind == "harvester":
@@ -89,6 +91,11 @@ def make_farmer(x, sc, D):
             return x.Harvester(r, data_name=os.path.join(D, "full.h5"),
                                chunks=sc["chunks"]), fn
         return x.Harvester(r, data_name=os.path.join(D, "full.h5")), fn
+    if kind == "sampler" and sc.get("engine") == "csv":
+        return x.Sampler(r, data_name=os.path.join(D, sampler_file(sc)),
+                         engine="csv",
+                         default_combos={"a": list(range(sc["N"])),
+                                         "b": ["p", "q"]}), fn
     return x.Sampler(r, data_name=os.path.join(D, sampler_file(sc)),
                      default_combos={"a": list(range(sc["N"])),
                                      "b": ["p", "q"]}), fn
@@ -398,7 +405,8 @@ def check_store(x, sc, D, ctx, tag, need_new):
         require(os.path.exists(path), "sampler-file-lost",
                 f"{tag}: the sampler's file is gone")
         try:
-            df = x.load_df(path)
+            df = x.load_df(path, engine="csv") \
+                if sc.get("engine") == "csv" else x.load_df(path)
         except Exception as e:
             core.violated("sampler-file-corrupt",
                           f"{tag}: {type(e).__name__}: {e}")
@@ -563,6 +571,8 @@ def scenarios(tier, seed):
                     sc["chunks"] = 2
                 if farmer == "sampler" and r % 3 == 1:
                     sc["bare_name"] = True
+                if farmer == "sampler" and r % 3 == 0:
+                    sc["engine"] = "csv"
                 out.append(sc)
     return out
 
